@@ -33,7 +33,7 @@ type nnsWorld struct {
 }
 
 func newNnsWorld(n int, h *ev.History, tlds ...string) *nnsWorld {
-	c := chainkit.NewChain(theT, n, chainkit.Options{})
+	c := chainkit.NewChain(theT, n, chainkit.Options{Validators: takeValidators()})
 	w := &nnsWorld{c: c, h: h, names: map[util.Uint160]string{}, committee: []neotest.Signer{c.Committee}}
 	var data any
 	if len(tlds) > 0 {
